@@ -1,6 +1,38 @@
--- shard 6 of the closeness / tick-gap sweep (C06 (c), (e)): |tick| in [196608, 229376)
+-- shard 6 of the closeness / tick-gap sweep (C06 (c), (e)): |tick| in [196608, 229376), 16 blocks of 2^11
 import Proofs.Lemmas.ClosePred
 namespace Demeter.TickClose
 set_option maxRecDepth 100000 in
-theorem close_shard_06 : chkN closeSweepPred 196608 shardBits = true := by decide +kernel
+theorem close_blk_196608 : chkN closeSweepPred 196608 11 = true := by decide +kernel
+set_option maxRecDepth 100000 in
+theorem close_blk_198656 : chkN closeSweepPred 198656 11 = true := by decide +kernel
+set_option maxRecDepth 100000 in
+theorem close_blk_200704 : chkN closeSweepPred 200704 11 = true := by decide +kernel
+set_option maxRecDepth 100000 in
+theorem close_blk_202752 : chkN closeSweepPred 202752 11 = true := by decide +kernel
+set_option maxRecDepth 100000 in
+theorem close_blk_204800 : chkN closeSweepPred 204800 11 = true := by decide +kernel
+set_option maxRecDepth 100000 in
+theorem close_blk_206848 : chkN closeSweepPred 206848 11 = true := by decide +kernel
+set_option maxRecDepth 100000 in
+theorem close_blk_208896 : chkN closeSweepPred 208896 11 = true := by decide +kernel
+set_option maxRecDepth 100000 in
+theorem close_blk_210944 : chkN closeSweepPred 210944 11 = true := by decide +kernel
+set_option maxRecDepth 100000 in
+theorem close_blk_212992 : chkN closeSweepPred 212992 11 = true := by decide +kernel
+set_option maxRecDepth 100000 in
+theorem close_blk_215040 : chkN closeSweepPred 215040 11 = true := by decide +kernel
+set_option maxRecDepth 100000 in
+theorem close_blk_217088 : chkN closeSweepPred 217088 11 = true := by decide +kernel
+set_option maxRecDepth 100000 in
+theorem close_blk_219136 : chkN closeSweepPred 219136 11 = true := by decide +kernel
+set_option maxRecDepth 100000 in
+theorem close_blk_221184 : chkN closeSweepPred 221184 11 = true := by decide +kernel
+set_option maxRecDepth 100000 in
+theorem close_blk_223232 : chkN closeSweepPred 223232 11 = true := by decide +kernel
+set_option maxRecDepth 100000 in
+theorem close_blk_225280 : chkN closeSweepPred 225280 11 = true := by decide +kernel
+set_option maxRecDepth 100000 in
+theorem close_blk_227328 : chkN closeSweepPred 227328 11 = true := by decide +kernel
+theorem close_shard_06 : chkN closeSweepPred 196608 shardBits = true :=
+  (chkN_join _ 196608 14 (chkN_join _ 196608 13 (chkN_join _ 196608 12 (chkN_join _ 196608 11 close_blk_196608 close_blk_198656) (chkN_join _ 200704 11 close_blk_200704 close_blk_202752)) (chkN_join _ 204800 12 (chkN_join _ 204800 11 close_blk_204800 close_blk_206848) (chkN_join _ 208896 11 close_blk_208896 close_blk_210944))) (chkN_join _ 212992 13 (chkN_join _ 212992 12 (chkN_join _ 212992 11 close_blk_212992 close_blk_215040) (chkN_join _ 217088 11 close_blk_217088 close_blk_219136)) (chkN_join _ 221184 12 (chkN_join _ 221184 11 close_blk_221184 close_blk_223232) (chkN_join _ 225280 11 close_blk_225280 close_blk_227328))))
 end Demeter.TickClose
